@@ -121,7 +121,9 @@ class Scenario:
 NAMES = ['a.log', 'bb.log', 'quite-long-name.log', 'x', '日本語.log', 'café.log', 'm.log']
 
 
-def text_scenario(rng, work, k, nfiles=None, names=None, nonascii=True, window=False, steps=(0, 1, 1, 2, 7, 3600)):
+def text_scenario(rng, work, k, nfiles=None, names=None, nonascii=True, window=False, steps=(0, 1, 1, 2, 7, 3600), silent=()):
+    """`silent`: (position, name, how) of extra sources that print nothing — how = 'nolog' (no timestamp in the file) or
+    'old' (every message before the window, which is then forced to start after them)"""
     d = os.path.join(work, 'sc%d' % k)
     shutil.rmtree(d, ignore_errors=True)
     os.makedirs(os.path.join(d, 'sub'))
@@ -143,9 +145,27 @@ def text_scenario(rng, work, k, nfiles=None, names=None, nonascii=True, window=F
             ms.append((t, {'pid': i, 'kind': 's', 'lines': lines, 'ns': t * 1_000_000_000,
                            'last': j == len(log.msgs) - 1, 'beg': 0, 'fin': 19}))
         srcs.append(ms)
+    forced_after = None
+    for pos, nm, how in silent:
+        if how == 'nolog':
+            data = b'no timestamp here\njust words, and more words\n' * 3
+        else:
+            old = e2e.gen_log(rng, 3, start=base - 500000, steps=(1, 2), weird=False)
+            data = old.data
+            forced_after = base - 1000
+        open(os.path.join(d, nm), 'wb').write(data)
+        pos = min(pos, len(files))
+        files.insert(pos, {'path': os.path.join(d, nm), 'arg': nm, 'kind': 's', 'base': nm})
+        srcs.insert(pos, [])
+        for ms in srcs[pos + 1:]:
+            for _, m in ms:
+                m['pid'] += 1
     sc = Scenario('text%d' % k, files)
     sc.cwd = d
     sc.window = (None, None)
+    if forced_after is not None and not window:
+        sc.window = (forced_after, None)
+        sc.extra += ['-a', fmt_dt(forced_after * 1_000_000_000, 0, '%Y%m%dT%H%M%S')]
     if window:
         ts = sorted(t for ms in srcs for t, _ in ms)
         a, b = sorted([rng.pick(ts), rng.pick(ts)])
